@@ -80,6 +80,7 @@ InputsCtl(st) ==
             \cup (IF st.select.has THEN {[R("operate", st, [ob |-> "a"]) EXCEPT !.seq = S16(st.select.seq + 1)]}
                   ELSE {})
             \cup {R("dop", st, [ob |-> "a"]), R("dopnr", st, [ob |-> "a"]), R("delay", st, <<>>),
+                  R("record", st, <<>>), R("wtabs", st, <<>>), R("wtlast", st, <<>>), R("cold", st, <<>>), R("warm", st, <<>>),
                   R("write_rst", st, <<>>), R("write2", st, [ob |-> "bg", bad |-> "reject"]),
                   R("write2", st, [ob |-> "gb", bad |-> "reject"])}
             \cup {R("delay", st, [src |-> "X"]), R("select", st, [ob |-> "a", src |-> "X"])}
